@@ -323,7 +323,10 @@ func checkProgram(c progCase) harness.Outcome {
 }
 
 // model flag → known finding id whose class it marks
-var excludeByFlag = map[string]string{}
+var excludeByFlag = map[string]string{
+	// 15.4.5.1 converts the value assigned to an array's length twice; otto once (recorded for C08 too)
+	"array-length-from-object": "C01-LENGTH-SINGLE-CONVERSION",
+}
 
 var programs = harness.Register(&harness.Facet[progCase]{
 	Name: "programs",
